@@ -140,13 +140,39 @@ pub fn run_case(id: &str, tier: Tier, s: &Script) -> CaseResult {
         let k = if tier == Tier::Thorough { p.layouts_thorough } else { p.layouts_quick };
         let mut first: Option<CaseResult> = None;
         let mut orders_differ = false;
+        let mut results: Vec<(u64, CaseResult)> = vec![];
         for j in 0..k {
             let mut sj = s.clone();
             sj.layout_seed = s.layout_seed.wrapping_add((j as u64).wrapping_mul(0xA24B_AED4_963E_E407));
             let r = run_one(id, p.views, &sj);
-            if r.outcome != Outcome::Pass {
-                return r;
+            match r.outcome {
+                Outcome::Pass | Outcome::OtherView | Outcome::Violation => results.push((sj.layout_seed, r)),
+                _ => return r,
             }
+        }
+        let npass = results.iter().filter(|(_, r)| r.outcome == Outcome::Pass).count();
+        if npass == 0 {
+            // every layout misbehaves the same way with respect to another property
+            return results.remove(0).1;
+        }
+        if npass < results.len() {
+            // the same call sequence is fine under some layouts and not under others
+            let (lp, _) = results.iter().find(|(_, r)| r.outcome == Outcome::Pass).unwrap();
+            let (lb, rb) = results.iter().find(|(_, r)| r.outcome != Outcome::Pass).unwrap();
+            let mut v = rb.clone();
+            v.outcome = Outcome::Violation;
+            v.view = View::Layout as u32;
+            v.msg = format!(
+                "[layout-dependence] the same call sequence behaves correctly under heap layout {:#x} but not under layout {:#x} ({} of {} layouts affected): {}",
+                lp,
+                lb,
+                results.len() - npass,
+                results.len(),
+                rb.msg
+            );
+            return v;
+        }
+        for (seed_j, r) in results {
             match &mut first {
                 None => first = Some(r),
                 Some(f) => {
@@ -159,7 +185,7 @@ pub fn run_case(id: &str, tier: Tier, s: &Script) -> CaseResult {
                         v.view = View::Layout as u32;
                         v.msg = format!(
                             "[layout-dependence] the same call sequence destroyed different sets of objects or showed different counts under heap layouts {:#x} and {:#x} (digests {:#x} vs {:#x})",
-                            s.layout_seed, sj.layout_seed, f.digest, r.digest
+                            s.layout_seed, seed_j, f.digest, r.digest
                         );
                         return v;
                     }
